@@ -268,3 +268,8 @@ Definition form_sub (f : aform) : bool :=
 Definition code_postdec_fixed : bool := true.
 Definition code_index_nullcheck : bool := true.
 Definition code_range_guarded : bool := true.
+
+(* fixed defect D16 (kept as a regression witness): before the fix: commit  n + p  (number first) was computed by the
+   INTEGER branch of operator+: native addition to the raw pointer - no null check, no containment check, the
+   APPLICATION element size.  After it, n + p is p + n. *)
+Definition radd_before_fix (p n appsz : Z) : res Z := Ok (w64 (p + n * appsz)).
